@@ -1233,3 +1233,16 @@ package core
 //@ func core.TopNode.resolveDisabledExp property C01
 //@   requires node != nil && binding != nil
 //@   ensures @onlywhentrue isnil(result.2) && result.0 && ghost(dresolved)[0] == old(ghost(dresolved)[0]) + 1 ==> ghost(lastisbool)[0] == 1 || db
+
+// The static enumeration of forks (call graph time) obeys the same rule: the placeholder part of
+// a not-yet-expanded source is shared by every fork id of the cartesian product, so fixing this
+// fork's element, key or emptiness edits a copy, never a part that existed before the call.
+//@ func core.ForkId.expandStaticForkPart property C03 C01
+//@   requires part != nil && split != nil && 0 <= i && i < len(fork)
+//@   ensures @cow forall p *core.ForkSourcePart :: old(alloc(p)) ==> p.Id == old(p.Id)
+//@   loop 1 invariant forall p *core.ForkSourcePart :: old(alloc(p)) ==> p.Id == old(p.Id)
+//@   loop 2 invariant forall p *core.ForkSourcePart :: old(alloc(p)) ==> p.Id == old(p.Id)
+//@   loop 3 invariant forall p *core.ForkSourcePart :: old(alloc(p)) ==> p.Id == old(p.Id)
+//@   loop 4 invariant forall p *core.ForkSourcePart :: old(alloc(p)) ==> p.Id == old(p.Id)
+//@   loop 5 invariant forall p *core.ForkSourcePart :: old(alloc(p)) ==> p.Id == old(p.Id)
+//@   loop 6 invariant forall p *core.ForkSourcePart :: old(alloc(p)) ==> p.Id == old(p.Id)
